@@ -38,10 +38,10 @@ Proof.
 Qed.
 
 Lemma enc_dests_not_panic s d : enc_dests s d <> Panic.
-Proof. unfold enc_dests. destruct (255 <? _); discriminate. Qed.
+Proof. unfold enc_dests. destruct (255 <? _); [discriminate|]. destruct (_ || _); discriminate. Qed.
 
 Lemma enc_unsucc_not_panic l : enc_unsucc l <> Panic.
-Proof. unfold enc_unsucc. destruct (255 <? _); discriminate. Qed.
+Proof. unfold enc_unsucc. destruct (255 <? _); [discriminate|]. destruct (existsb _ _); discriminate. Qed.
 
 Lemma enc_tags_sorted_not_panic t : enc_tags_sorted t <> Panic.
 Proof.
@@ -54,6 +54,8 @@ Qed.
 Lemma enc_field_not_panic lay u k v : enc_field lay u k v <> Panic.
 Proof.
   destruct k, v; cbn [enc_field]; try discriminate.
+  - destruct (has_nul s); discriminate.
+  - destruct (has_nul (a_no a)); discriminate.
   - apply enc_dests_not_panic.
   - apply enc_unsucc_not_panic.
   - apply enc_short_not_panic.
